@@ -458,15 +458,20 @@ def reject_key(o, clause, row, forms, names):
     a16 = any(x["t"] == "m" and (x["bt"] == "gpw" or x["it"] == "gpw") for x in o["ops"])
     deco = o["k"] or o["z"] or o["er"] >= 0 or o["sae"] or any(x["t"] == "m" and x["bc"] for x in o["ops"])
     optevex = o["opt"] >> 11 & 1
-    fit = [forms[i - 1] for i in names.get(o["n"], []) if forms[i - 1]["ok"] and shape_fits(forms[i - 1], o)]
+    # EVEX rows of AVX10.2 are not implemented by the pinned release (every AVX10.2-only mnemonic is an unknown name): they do not count
+    fit = [forms[i - 1] for i in names.get(o["n"], []) if forms[i - 1]["ok"] and "AVX10_2" not in forms[i - 1]["ext"] and shape_fits(forms[i - 1], o)]
     if (hi or deco or optevex) and not any(f["pk"] == "E" and f["name"] == o["n"] for f in fit):
         what = "vector-register-16..31" if hi else ("mask-or-evex-decoration" if deco else "evex-option")
         return f"class:{what}-accepted-for-operand-signature-without-evex-row"
     if a16 and emitted_evex(o) and clause == "mem-disp":
         return "class:evex-disp8-not-compressed-with-16-bit-addressing"
-    sig = ",".join(op_sig(x) for x in o["ops"])
+    def coarse(x):
+        if x["t"] == "r": return x["c"]
+        if x["t"] == "m": return "m16" if (x["bt"] == "gpw" or x["it"] == "gpw") else "mabs" if (not x["bt"] and not x["it"]) else "m"
+        return {"i": "imm", "l": "label"}[x["t"]]
+    sig = ",".join(coarse(x) for x in o["ops"])
     opts = "".join("+" + n for j, n in enumerate(["lock", "rep", "repne", "xacq", "xrel", "short", "long", "modmr", "modrm", "vex3", "vex", "evex", "rex"])
-                   if (o["opt"] >> j & 1) and n in ("modmr", "modrm", "rex", "evex", "short", "long", "lock"))
+                   if (o["opt"] >> j & 1) and n in ("modmr", "rex"))
     return f"{o['n']}:{clause}:m{o['m']}:{sig}{opts}"
 
 
@@ -708,6 +713,8 @@ def run(ctx):
     # spec validation against the independent decoders
     sample, stats, quirks, bad = validate_spec(ctx, forms, ok_obs, ctx.seed)
     def limit(o):       # unknown to llvm-mc 14 / objdump 2.40: newer extensions, APX-promoted EVEX forms of kmov
+        if o["n"].startswith("bnd") and any(x["t"] == "m" and (x["bt"] == "gpw" or x["it"] == "gpw") for x in o["ops"]):
+            return True         # MPX has no 16-bit addressing (#UD): whether the assembler should accept it is C13's question
         return bool(DECODER_LIMITS.match(o["n"])) or (o["n"].startswith("kmov") and 0x62 in o["b"][:3])
     limits = [b for b in bad if limit(b[0])]
     bad = [b for b in bad if not limit(b[0])]
